@@ -16,6 +16,7 @@
 #include "CppUTest/TestResult.h"
 #include "CppUTest/JUnitTestOutput.h"
 #include "CppUTest/MemoryLeakDetectorMallocMacros.h"
+extern "C" void FAIL_TEXT_C_LOCATION(const char* text, const char* fileName, size_t lineNumber);
 #undef new
 #undef malloc
 #undef free
@@ -34,7 +35,7 @@ using namespace vf;
 
 enum Kind { X_NONE = 0, X_ALLOC /* a slot, b form (0 new,1 new[],2 new nothrow,3 new[] nothrow,4 malloc), c size */, X_FREE /* a slot */, X_REALLOC /* a slot, c size */,
             X_SEND /* a slot, b target thread */, X_RECV, X_YIELD,
-            X_MISUSE /* a kind: 0 overrun a guard byte then release, 1 release a foreign pointer, 2 release through the wrong family, 3-5 the same three through realloc; b form; c size */, X_COUNT };
+            X_MISUSE /* a kind: 0 overrun a guard byte then release, 1 release a foreign pointer, 2 release through the wrong family, 3-5 the same three through realloc, 6 the platform has no memory, 7 a plain failing check; b form; c size */, X_COUNT };
 static const char* const kNames[X_COUNT] = { "none", "alloc", "free", "realloc", "send", "recv", "yield", "misuse" };
 static const char* kindName(int k) { return k >= 0 && k < X_COUNT ? kNames[k] : "none"; }
 static int kindFromName(const char* s) { for (int i = 0; i < X_COUNT; i++) if (!strcmp(s, kNames[i])) return i; return X_NONE; }
@@ -402,6 +403,7 @@ public:
                 else if (o.a == 5) { size_t n = (size_t)o.c; char* p = (char*)acquire(4, n, 58); p[n] = 'X'; cpputest_realloc_location(p, n + 8, "thr.c", 11); }   // overrun, then realloc
                 else if (o.a == 6 && g_allocatingOutput) { /* see DESIGN 10.3: with an output that allocates while it records the failure this is the known finding's FAIL raised under the lock; not mixed */ }
                 else if (o.a == 6) { g_failNextMallocOfT0 = true; char* p = (o.b & 1) ? (char*)cpputest_malloc_location((size_t)o.c, "thr.c", 12) : new char[(size_t)o.c]; g_failNextMallocOfT0 = false; if (p) { Held h; h.p = p; h.form = (o.b & 1) ? 4 : 1; h.size = (size_t)o.c; release(h); } }      // not a misuse but the other failure raised under the lock: the default allocator fails the test when the platform has no memory
+                else if (o.a == 7) { fired("plain_check_fails_beside_workers"); FAIL_TEXT_C_LOCATION("the test's own failing check", "thr.c", 13); }      // no misuse at all: the test leaves by the same jump while a worker may be inside the detector
                 else { char* p = (char*)acquire(0, 8, 56); Held h; h.p = p; h.form = 4; h.size = 8; release(h); }                                                                          // new / free mismatch
             }
         }
@@ -455,7 +457,7 @@ struct Engine : public vf::Engine {
             Group T; T.tag = "test";
             int n = (int)w.range(0, 6);
             for (int i = 0; i < n; i++) { Op o; o.kind = w.chance(1, 2) ? X_ALLOC : X_FREE; o.a = (int64_t)w.below(4); o.b = (int64_t)w.below(5); o.c = w.range(1, 40); T.ops.push_back(o); }
-            Op m; m.kind = X_MISUSE; m.a = (int64_t)w.below(7); m.b = (int64_t)w.below(5); m.c = w.range(1, 40); T.ops.insert(T.ops.begin() + (long)w.below(T.ops.size() + 1), m);
+            Op m; m.kind = X_MISUSE; m.a = (int64_t)w.below(8); m.b = (int64_t)w.below(5); m.c = w.range(1, 40); T.ops.insert(T.ops.begin() + (long)w.below(T.ops.size() + 1), m);
             d.groups.push_back(T);
         }
         for (int t = 0; t < nThreads; t++) {
@@ -575,7 +577,7 @@ struct Engine : public vf::Engine {
             if (testFailures == wantFailures && wantFailures > 0) {
                 Str text = testFailureText == "(junit output)" ? Str() : testFailureText;
                 if (testFailureText == "(junit output)") for (size_t i = 0; i < simIO().files.size(); i++) text += simIO().files[i]->data;
-                bool named = text.find("Deallocating non-allocated memory") != Str::npos || text.find("Allocation/deallocation type mismatch") != Str::npos || text.find("Memory corruption") != Str::npos || text.find("malloc returned null pointer") != Str::npos;
+                bool named = text.find("Deallocating non-allocated memory") != Str::npos || text.find("Allocation/deallocation type mismatch") != Str::npos || text.find("Memory corruption") != Str::npos || text.find("malloc returned null pointer") != Str::npos || text.find("the test's own failing check") != Str::npos;
                 if (!named) r.fail("C10", "misuse_report_text", sg("what", "the failure does not say which misuse was detected"), text.substr(0, 300));
             }
             if (testFailures != wantFailures) r.fail("C10", "misuse_reported_once", sg("what", testFailures < wantFailures ? "misuse not reported as a test failure" : "more failures than misuses"), sfmt("%zu failures recorded for the misusing test: %s", testFailures, testFailureText.substr(0, 300).c_str()));
